@@ -201,6 +201,11 @@ let run_op (op : string) (r : rd) : unit =
       put (match k.Cli.k_output with Cli.OCpp -> "cpp" | Cli.OFoam -> "foam" | Cli.OXml -> "xml" | Cli.OJson -> "json")
   | "target_file_name" -> let n = get_str r in let p = get_opt r get_str in let sc = get_list r get_scalar in
                           let o = get_opt r get_str in put_str (Cli.target_file_name n p sc o)
+  | "relative_path" -> let a = get_list r get_str in let b = get_list r get_str in put_list put_str (Paths.relative_path a b)
+  | "norm_join" -> let a = get_list r get_str in let b = get_list r get_str in put_list put_str (Paths.norm_join a b)
+  | "common_prefix_all" -> put_list put_str (Paths.common_prefix_all (get_list r (fun r -> get_list r get_str)))
+  | "include_chain" -> let rel = get_list r get_str in
+                       let d = Paths.include_directive_text rel in put_str d; sp (); put_opt put_str (Paths.directive_name d)
   | _ -> raise (Bad ("op:" ^ op))
 
 let () =
